@@ -862,6 +862,7 @@ TRUSTED = [
 ]
 
 COQ_FILES = ["C11/Model.v", "C11/NodeProofs.v", "C11/Election.v", "C11/Refute.v", "C11/LogProofs.v", "C11/LogMatching.v", "C11/Progress.v",
+         "C11/Steps.v", "C11/Ghost.v", "C11/LC.v", "C11/Stab.v", "C11/Step.v", "C11/Step2.v", "C11/Completeness.v",
          "Base/PyLib.v", "Gen/RaftLogGen.v", "C11/GenTie.v", "C11/Props.v"]
 
 
@@ -976,9 +977,9 @@ def run(ctx):
                             "(drive), a second term was reached and an entry committed (sim), a command applied (healthy), the log is non-empty (forge: forged/malformed message streams to one node); distinct by JSON of the input")
     ctx.finish_obligations()
     ctx.assumptions += [
-        "cluster-level log matching, leader completeness and state-machine safety are STATED in C11/LogProofs.v (…_statement) but not proved; "
-        "proved are the per-step theorems c11_log_matching_step_partial and c11_leader_append_only_partial; the statements are evaluated by the "
-        "oracle on the implementation after every event of every explored schedule",
+        "cluster-level log matching, leader completeness and state-machine safety (the …_statement definitions of C11/LogProofs.v) are PROVED for "
+        "every cluster and schedule of the cluster model (c11_log_matching, c11_leader_completeness, c11_state_machine_safety); the same "
+        "statements are also evaluated by the oracle on the implementation after every event of every explored schedule",
         "the submit-future clause is refuted on the faithful model (c11_submit_future_refuted), known finding C11-future-keyed-by-index; "
         "what holds is the last conjunct of c11_apply_in_order",
         "liveness clause (healthy network => every command applied everywhere in submission order): checked by the oracle on the 'healthy' "
